@@ -25,7 +25,7 @@ static const double TOL_FWD = 16;        // Forward vs closed form, in eps * max
 static const double TOL_REV_POS = 16;    // |Forward_f128(Reverse(P)) - P| in eps * max(|P|, a)     (observed worst 2.1)
 static const double TOL_REV_H = 16;      // | |h| - nearest distance | in eps * max(|P|, a)         (observed worst 1.6)
 static const double TOL_LON = 16;        // lon vs atan2(Y, X), relative, eps                       (observed worst 1.5)
-static const double TOL_M_ORTHO = 4;     // |M^T M - I| in eps                                      (design: 4 eps; observed 1.0)
+static const double TOL_M_ORTHO = 16;    // |M^T M - I| in eps (no documented figure; observed 2.2 Geocentric, 4.0 LocalCartesian product)
 static const double TOL_M_ENU = 16;      // |M - ENU(returned lat, lon)| in eps                     (observed worst 1.7)
 static const double TOL_RT_NM = 14;      // documented 7 nm round trip, |h| <= 5000 km, WGS84  (x 2)
 static const double TOL_LOCAL = 16;      // local cartesian position / distances in eps * scale     (observed worst 2.6)
@@ -114,7 +114,15 @@ static void check_reverse(Ctx& ctx, Env& v, double X, double Y, double Z, const 
   // tie-breaking / sign rules that follow from "nearest point": lat has the sign of Z; Z = 0 -> lat >= 0
   if (Z != 0 ? (lat != 0 && (lat > 0) != (Z > 0)) : (lat < 0))
     ctx.fail(key + " latsign", "latitude " + fmt(lat) + " has the wrong sign for Z = " + fmt(Z), FF("lat-sign"));
-  const double scale = dmax((double)P, a);
+  // scale of round-off: the size of the point or of the ellipsoid, and the displacement that half an ulp of the returned
+  // latitude itself stands for, |rho(lat) + h| * |lat| (this term matters only for extreme eccentricities, where the meridional
+  // radius of curvature at the pole is a/(1-f) >> a; it is < 1.6 max(|P|,a) for every terrestrial ellipsoid)
+  double scale = dmax((double)P, a);
+  if (std::isfinite(h)) {
+    Q sp, cp; cart::sincosd(lat, sp, cp);
+    Q w = v.E.e2 > 0 ? v.E.e2m + v.E.e2 * cp * cp : 1 - v.E.e2 * sp * sp, rho = v.E.a * v.E.e2m / (w * sqrtq(w));
+    scale = dmax(scale, (double)(fabsq(rho + (Q)h) * fabsq((Q)lat) * M_PIq / 180));
+  }
   if (std::isinf(h)) {
     // |P| exceeds the double range: direction only
     ctx.count("reverse_h_infinite");
@@ -160,7 +168,12 @@ static void check_forward(Ctx& ctx, Env& v, double lat, double lon, double h, do
   if (!mc::same_bits(X, X2) || !mc::same_bits(Y, Y2) || !mc::same_bits(Z, Z2)) ctx.fail(key, "Forward with and without the matrix argument disagree", FF("overload-differs"));
   for (double m : M8) if (m != -777.0) { ctx.fail(key, "matrix argument of length 8 was written", FF("matrix-size")); break; }
   Q Xr, Yr, Zr; cart::forward(v.E, lat, lon, (Q)h, Xr, Yr, Zr);
-  double scale = dmax((double)norm3(Xr, Yr, Zr), a);
+  // scale of round-off: max(|P|, a) plus the effect of one rounding error in e^2 sin^2(lat) on nu = a/sqrt(1 - e^2 sin^2 lat),
+  // d nu = nu e^2/(2 w) eps  (w = 1 - e^2 sin^2 lat; negligible, 0.003 a, for terrestrial ellipsoids; 50 a at the pole for f = 0.99)
+  Q sp, cp; cart::sincosd(lat, sp, cp);
+  Q w = v.E.e2 > 0 ? v.E.e2m + v.E.e2 * cp * cp : 1 - v.E.e2 * sp * sp, nu = v.E.a / sqrtq(w);
+  Q cnd = nu * fabsq(v.E.e2) / (2 * w) * (fabsq(cp) > v.E.e2m * fabsq(sp) ? fabsq(cp) : v.E.e2m * fabsq(sp));
+  double scale = dmax((double)norm3(Xr, Yr, Zr), a) + (double)cnd;
   double e = (double)norm3(Xr - X, Yr - Y, Zr - Z), tol = TOL_FWD * EPS * scale;
   ctx.worst("forward.err_over_tol", e / tol, key);
   if (!(e <= tol)) ctx.fail(key, "Forward = (" + fx(X) + "," + fx(Y) + "," + fx(Z) + ") differs from the closed form by " + fmt(e / (EPS * scale)) + " eps*max(|P|,a)", FF("forward-value"));
@@ -376,6 +389,7 @@ int main(int argc, char** argv) {
       check_local(ctx, *v, lat0, lon0, hh0, lats, lons, hh);
     }
   }
+  ctx.note("round-off scale: max(|P|, a), enlarged (a) for Reverse by |rho(lat)+h|*|lat|, the displacement represented by a relative eps in the returned latitude, and (b) for Forward by nu e^2/(2(1-e^2 sin^2 lat)), the effect of one rounding in 1 - e^2 sin^2 lat; both terms are below 1.6 max(|P|,a) for WGS84-like ellipsoids and reach 155 a / 50 a at the pole of the f = 0.99 ellipsoid (the documentation claims round-off accuracy for terrestrial ellipsoids and states that e > 1/sqrt(2) was not analysed)");
   ctx.list("not_compared", "tools/CartConvert command line (covered by the text-I/O property C10)");
   return ctx.finish();
 }
